@@ -57,6 +57,7 @@ func (m *Mutex) Unlock() {
 			panic("sync: unlock of unlocked mutex")
 		}
 		m.locked = false
+		sched.Yield("after-Unlock", nil)
 	}
 }
 
@@ -84,6 +85,12 @@ func (m *RWMutex) Unlock() {
 			panic("sync: Unlock of unlocked RWMutex")
 		}
 		m.writer = false
+		// The code that follows an unlock runs outside the critical section:
+		// without a second scheduling point here it would execute atomically
+		// with the unlock itself, and "another thread gets in between the
+		// unlock and the unprotected work" (hashing a busy piece, say) would
+		// never be explored.
+		sched.Yield("after-Unlock", nil)
 	}
 }
 
@@ -105,6 +112,7 @@ func (m *RWMutex) RUnlock() {
 			panic("sync: RUnlock of unlocked RWMutex")
 		}
 		m.readers--
+		sched.Yield("after-RUnlock", nil)
 	}
 }
 
